@@ -2,10 +2,10 @@ SPECIFICATION Spec
 CONSTANTS
   Procs = {"c1", "c2"}
   Names = {"a", "b"}
-  MaxCalls = 2
+  MaxCalls = 1
   MaxAge = 2
   MaxReap = 2
   Faults = TRUE
-  SplitGet = FALSE
+  SplitGet = TRUE
 VIEW View
 INVARIANTS TypeOK OneTransportPerName CallersShareTheCachedTransport SameNameSameTransport IdentitiesNeverReused NeverHalfInitialised BoundedRetries OnlyAgedAreReaped
